@@ -140,7 +140,7 @@ def show_stmts_deep(node):
 
 
 def r3(ctx, rep):
-    rep.rule("C03.R3", "sort keys travel with CTEs and are named", floor=3)
+    rep.rule("C03.R3", "sort keys travel with CTEs and are named", floor=4)
     syn = ctx.syn
     f = sorting_fn(syn)
     ok = False
@@ -149,6 +149,38 @@ def r3(ctx, rep):
             t = show_stmts_deep(blk)
             ok = ok or ("select.push(cid)" in t and "select.contains(&cid)" in t and any(x.get("k") == "for" and show(x["e"]) == "&sorting" for x in walk(blk)))
     rep.check(ok, "cte-projection", "a CTE must project every column of its sorting that it does not already select (the outer ORDER BY refers to them)", file=f["file"], line=f["l"], fn=f["path"])
+    # .. and the only reason for not adding a sort column is that this very column is selected already: the condition around the push, with
+    # named booleans inlined, is a function of `<select>.contains(&<column>)` alone (a wildcard in the select may belong to another relation)
+    import alpha
+    import boolfn
+    A = alpha.Inliner(f)
+    par = _g.parents(f["body"])
+    only_contains, detail = None, None
+    for n in walk(f["body"]):
+        if n.get("k") == "mcall" and n["m"] == "push" and not n["a"] == [] and any(x.get("k") == "for" and _g._contains(x["body"], n) and "sorting" in show(x["e"], maxdepth=6) for x in walk(f["body"])):
+            cur, conds = n, []
+            while id(cur) in par:
+                q = par[id(cur)]
+                if q.get("k") == "for":
+                    break
+                if q.get("k") == "if" and q["c"].get("k") != "let":
+                    conds.append((q["c"], q.get("t") is cur or _g._contains(q.get("t"), cur)))
+                cur = q
+            if not conds:
+                continue
+            try:
+                rows = {}
+                for has in (True, False):
+                    def atom(t, has=has):
+                        t = t.replace(" ", "")
+                        return has if re.fullmatch(r"[\w.]+\.contains\(&?\*?[\w.]+\)", t) else None
+                    rows[has] = all(boolfn.ev(c_, atom, A) == pos for c_, pos in conds)
+                only_contains = rows == {True: False, False: True}
+                detail = rows
+            except boolfn.Unknown as e:
+                only_contains, detail = False, f"depends on more than the membership test ({e})"
+    rep.check(only_contains is True, "cte-projection:only-if-selected", f"the sort column of a CTE is left out of its SELECT only when that column is already selected; found: {detail}. A broader test (e.g. any wildcard in the "
+              "select) drops the key when the star belongs to another relation, and the outer ORDER BY names a column the CTE does not return", file=f["file"], line=f["l"], fn=f["path"])
     txt = show_stmts(f["body"], maxdepth=6)
     rep.check("self.last_sorting = sorting" in txt, "remember", "the pipeline's sorting must be remembered for the referencing pipeline", file=f["file"], line=f["l"], fn=f["path"])
     # ensure_names names sort columns of Sort and Super(Sort)
